@@ -227,6 +227,27 @@ pub fn encode_request(before: &Tree, cfg: &RunCfg, cmds: &[(String, Vec<Act>)], 
     )
 }
 
+/// `safe <mode> <base> <tree> <cmds>`: asks the model on how many txtpp sources of the tree the side condition
+/// of the pass-level theorems (C06/C08/C09: no block reads a path while it is stale) holds
+pub fn encode_safe_request(before: &Tree, mode: &str, cmds: &[(String, Vec<Act>)], base_abs: &str) -> String {
+    let cfg = RunCfg { mode: "build", trailing: true, recursive: false, threads: 1, inputs: vec![] };
+    let full = encode_request(before, &cfg, cmds, base_abs);
+    let f: Vec<&str> = full.split(' ').collect();
+    // project mode tr rec base inputs tree cmds
+    format!("safe {} {} {} {}", mode, f[4], f[6], f[7])
+}
+
+/// (safe, unsafe, skipped, names of the unsafe sources)
+pub fn parse_safe_response(s: &str) -> Option<(usize, usize, usize, Vec<String>)> {
+    let f: Vec<&str> = s.trim().split(' ').collect();
+    if f.len() != 4 {
+        return None;
+    }
+    let n = |x: &str, k: &str| x.strip_prefix(k).and_then(|v| v.parse::<usize>().ok());
+    let names = if f[3] == "-" { vec![] } else { f[3].split(',').filter_map(|h| unhex(h).map(|b| String::from_utf8_lossy(&b).to_string())).collect() };
+    Some((n(f[0], "safe=")?, n(f[1], "unsafe=")?, n(f[2], "skip=")?, names))
+}
+
 /// `<verdict> F=<path:content,...> T=<paths> L=<markers>`
 pub fn parse_response(s: &str, before: &Tree) -> Option<Obs> {
     let f: Vec<&str> = s.split(' ').collect();
